@@ -35,7 +35,8 @@ Final == <<SPrint(Nn), SPrint(Xs), SPrint(EProp(Ob, KA)), SPrint(EProp(Ob, KB)),
 
 Payloads == {"declare", "assign", "opassign", "listdestruct", "objdestruct", "idxassign", "propassign",
              "rangeassign", "print", "interp", "spreadcall", "closure", "method", "typefn", "concat",
-             "compare", "rangeidx", "newkey", "strops", "break", "continue", "return", "error"}
+             "compare", "rangeidx", "newkey", "strops", "break", "continue", "return", "error",
+             "nestinterp", "rebind"}
 Payload(p) ==
     CASE p = "declare"  -> <<SDecl(Tmp(1), EBin("+", Nn, I(10))), SPrint(Tmp(1))>>
       [] p = "assign"   -> <<SAssign(Nn, EBin("*", Nn, I(2))), SPrint(Nn)>>
@@ -69,6 +70,20 @@ Payload(p) ==
       [] p = "continue"    -> <<SPrint(I(72)), SContinue, SPrint(I(73))>>
       [] p = "return"      -> <<SPrint(I(74)), SReturn(Nn), SPrint(I(75))>>
       [] p = "error"       -> <<SPrint(I(76)), SPrint(EBin("+", Nn, Sv))>>
+      \* interpolated strings nested in the slots of one string, same shape, different slot texts
+      [] p = "nestinterp"  -> <<SPrint(EIStr(<<Lit(<<>>),
+                                              SlotP(0, EIStr(<<Lit(<<91>>), SlotP(0, Sv), Lit(<<93>>)>>)), Lit(<<32>>),
+                                              SlotP(0, EIStr(<<Lit(<<91>>), SlotP(0, EStr(KA)), Lit(<<93>>)>>)), Lit(<<>>)>>)),
+                                SPrint(EIStr(<<Lit(<<>>), SlotP(0, EStr(KB)), Lit(<<33>>)>>)),
+                                SPrint(EIStr(<<Lit(<<>>), SlotP(0, Sv), Lit(<<33>>)>>))>>
+      \* a variable that held a method read from one object is assigned the method read from another
+      [] p = "rebind"      -> <<SDecl(Tmp(1), EProp(Ob, <<103, 101, 116>>)),
+                                SDecl(Tmp(2), EObj(<<Pair(EStr(KA), I(77)), Pair(EStr(<<103, 101, 116>>), EProp(Ob, <<103, 101, 116>>))>>)),
+                                SPrint(ECall(Tmp(1), <<>>)),
+                                SAssign(Tmp(1), EProp(Tmp(2), <<103, 101, 116>>)),
+                                SPrint(ECall(Tmp(1), <<>>)),
+                                SDecl(Tmp(3), ENull), SAssign(Tmp(3), EProp(Ob, <<103, 101, 116>>)),
+                                SPrint(ECall(Tmp(3), <<>>))>>
 
 Constructs == {"block", "if", "else", "while", "forlist", "forstring", "forobject", "namedfn", "anonfn",
                "method", "closure", "seq"}
@@ -161,6 +176,19 @@ Orders == [
                         SPrint(EObj(<<Pair(EStr(KA), ECall(Nm(<<110, 110>>), <<>>)), Pair(EStr(KB), ECall(Nm(<<110, 110>>), <<>>))>>)),
                         SFor(Tmp(2), EList(<<I(1), I(2)>>), <<SPrint(EIStr(<<Lit(<<>>), SlotP(0, ECall(ETProp(ECall(Nm(<<110, 110>>), <<>>), N_type), <<>>)), Lit(<<>>)>>))>>),
                         SPrint(Tmp(1))>>,
+  \* a later item changes a list that an earlier item spread (read at its own turn)
+  spreadeffects |-> <<SDecl(Tmp(1), EList(<<I(1), I(2), I(3)>>)),
+                      SFn(<<98, 117>>, <<>>, FALSE, <<SOpAssign(EIndex(Tmp(1), I(0)), "+", I(100)), SReturn(EIndex(Tmp(1), I(0)))>>),
+                      SFn(<<102, 102>>, <<Tmp(2), Tmp(3)>>, TRUE, <<SReturn(EList(<<Tmp(2), Tmp(3)>>))>>),
+                      SPrint(ECallOf(Fv, <<Spread(Tmp(1)), Item(ECall(Nm(<<98, 117>>), <<>>))>>)),
+                      SPrint(EListOf(<<Spread(Tmp(1)), Item(ECall(Nm(<<98, 117>>), <<>>)), Spread(Tmp(1))>>)),
+                      SFn(<<121, 115>>, <<>>, FALSE, <<SAssign(EIndex(Tmp(1), I(1)), I(0)), SReturn(EList(<<I(4)>>))>>),
+                      SPrint(EListOf(<<Spread(Tmp(1)), Spread(ECall(Nm(<<121, 115>>), <<>>))>>)),
+                      SDecl(Tmp(4), EObj(<<Pair(EStr(KA), I(1))>>)),
+                      SFn(<<111, 115>>, <<>>, FALSE, <<SAssign(EProp(Tmp(4), KA), I(50)), SReturn(EObj(<<Pair(EStr(KB), I(2))>>))>>),
+                      SPrint(EObj(<<PSpread(Tmp(4)), PSpread(ECall(Nm(<<111, 115>>), <<>>))>>)),
+                      SPrint(EBin("+", Tmp(1), EList(<<ECall(Nm(<<98, 117>>), <<>>)>>))),
+                      SPrint(EList(<<EIndex(Tmp(1), I(0)), ECall(Nm(<<98, 117>>), <<>>), EIndex(Tmp(1), I(0))>>))>>,
   \* a declaration whose right-hand side reads the outer variables it shadows
   shadowrhs  |-> <<SDecl(Tmp(1), I(1)), SDecl(Tmp(2), I(2)), SDecl(Tmp(3), I(3)),
                    SBlock(<<SDecl(EPat(<<Tmp(1), Tmp(2), Tmp(3)>>), EList(<<Tmp(2), Tmp(3), Tmp(1)>>)),
